@@ -102,6 +102,10 @@ def make_group(rng, nt, n, threads, cache, dup_names=False, user_flux=False):
            "footprint": True if cache else rng.random() < 0.5}
     raw = {"domain": dom, "towers": towers, "met": met, "solver": sol,
            "parallel": {"use_cache": cache, "max_workers": rng.choice([1, 2, 3])}}
+    # the configured thread count (what the CLI hands to the parent) is a legitimate option of a parallel run too:
+    # pool workers must stay serial whatever it says, in particular under a parent that already runs threaded
+    if threads > 1 or rng.random() < 0.3:
+        raw["parallel"]["num_threads"] = rng.choice([2, 4]) if threads > 1 else rng.choice([1, 2])
     return {"raw": raw, "nt": nt, "n": n, "threads": threads, "cache": cache, "repeat": repeat, "dup": dup_names,
             "explicit_halo": explicit_halo, "flux_seed": rng.randrange(1 << 30) if user_flux else None, "runs": []}
 
@@ -769,14 +773,16 @@ def check(ctx):
         tok = name_tokens(gr["names"])
         towers_term = "[%s]" % "; ".join("(%d, (%d)%%Z)" % (k, tok[nm]) for k, nm in enumerate(gr["names"]))
         n = gr["n"]
-        for rec in gr["records"]:
+        for ri, rec in enumerate(gr["records"]):
             run = rec["run"]
             stats["runs"] += 1
             stats["seconds"] += rec["seconds"]
             dkey = run["driver"] if run["driver"] != "parallel" else "parallel:" + run["strategy"]
             stats["by_driver"][dkey] = stats["by_driver"].get(dkey, 0) + 1
             stats["by_shape"]["%dx%d" % (g["nt"], n)] = stats["by_shape"].get("%dx%d" % (g["nt"], n), 0) + 1
-            hint = {"group": dict(g, runs=[run])}
+            # the run together with the runs that preceded it in its process: what a parallel run does can depend on
+            # what the parent did before forking (a threaded solve starts the OpenMP pool)
+            hint = {"group": dict(g, runs=[r["run"] for r in gr["records"][: ri + 1]][-6:])}
             tid = rec["rid"]
             for sig, detail in rec["fails"][:4]:
                 ctx.fail("correspondence", "C14:%s:%s" % (tid, sig), "%s (threads %d, cache %s, run %r)" % (detail, g["threads"], g["cache"], run), hint=hint)
@@ -874,7 +880,7 @@ def oracle(ctx, hints):
         if h and "group" in h and h["group"].get("runs"):
             g = json.loads(json.dumps(h["group"]))
             # repeat the failing run a few times: schedules are not reproducible exactly
-            g["runs"] = [dict(r, dseed=r.get("dseed", 0) + q) for r in g["runs"] for q in range(3)][:60]
+            g["runs"] = [dict(r, dseed=r.get("dseed", 0) + q) for q in range(3) for r in g["runs"]][:60]
             groups.append(g)
     groups = groups[:40]
     rng = random.Random(ctx.seed + 1414)
